@@ -358,6 +358,7 @@ fn main() {
     let mut only = None;
     let mut verbose = false;
     let mut mode = String::new();
+    let mut repeat = 1u64;
     let mut i = 2;
     while i < args.len() {
         let val = |i: usize| args.get(i + 1).cloned().unwrap_or_default();
@@ -391,6 +392,10 @@ fn main() {
             }
             "--mode" => {
                 mode = val(i);
+                i += 1;
+            }
+            "--repeat" => {
+                repeat = val(i).parse().unwrap_or(1);
                 i += 1;
             }
             "--verbose" => verbose = true,
@@ -479,7 +484,15 @@ fn main() {
                 let d = sc.describe();
                 handle(&ctx, idx, &mut rep, &mut acc, Job::Mock(sc), d, class)
             };
-            if !cont || only.is_some() {
+            if only.is_some() {
+                // replay: the scenario is fixed, the OS schedule is not - repeat until it shows again
+                repeat = repeat.saturating_sub(1);
+                if !cont || repeat == 0 || rep.n_violations > 0 {
+                    break;
+                }
+                continue;
+            }
+            if !cont {
                 break;
             }
             idx += 1;
